@@ -52,6 +52,10 @@ BASE_POOL = [
     ('float', 1e-13), ('float', 1e15), ('float', 1e15 + 0.5),
     ('float', 5e-324),
     ('date', D1), ('date', D2),
+    # moments of one day (the fraction of a serial is the time of day)
+    ('date', D1.replace(hour=6)), ('date', D1.replace(hour=12)),
+    ('date', D1.replace(hour=12, second=1)), ('float', 44000.5),
+    ('int', 44001),
     ('text', ''), ('text', '1'), ('text', '5'), ('text', '12'),
     ('text', 'true'), ('text', 'TRUE'), ('text', 'False'), ('text', 'abc'),
     ('text', 'ABC'), ('text', 'abd'), ('text', 'ab'), ('text', 'a'),
@@ -66,9 +70,13 @@ def shards(tier):
     return 16
 
 
-def refval(kind, v):
+def refval(kind, v, quirk=False):
     if kind == 'date':
-        return (v - EPOCH).days
+        d = v - EPOCH
+        if quirk:
+            # KF-C18-01: the time of day is added as seconds/24*60*60
+            return d.days + d.seconds / 24 * 60 * 60
+        return d.days + d.seconds / 86400.0
     return v
 
 
@@ -211,6 +219,12 @@ def quirk_predict(mode, op, a, b):
         else:
             c = -1 if x < y else (1 if x > y else 0)
             out['KF-C09-01'] = 'T' if ref.CMP[op](c) else 'F'
+    # KF-C18-01: a date with a time of day converts to days + seconds*150
+    timed = [x for x in (a, b) if x[0] == 'date' and (x[1] - EPOCH).seconds]
+    if timed and 'text' not in (ka, kb) and 'blank' not in (ka, kb) and \
+            'bool' not in (ka, kb):
+        c = ref.compare(refval(*a, quirk=True), refval(*b, quirk=True))
+        out['KF-C18-01'] = 'T' if ref.CMP[op](c) else 'F'
     # KF-C09-04: = and <> on native operands are Python == / !=
     if mode == 'native' and op in ('=', '<>'):
         try:
@@ -236,7 +250,7 @@ def offline(merged, ctx):
     vals = []
     for k, r in pool:
         if k == 'date':
-            vals.append((k, D1 if '2020' in r else D2))
+            vals.append((k, eval(r, {'datetime': datetime})))
         elif k == 'blank':
             vals.append((k, None))
         elif k == 'bool':
